@@ -787,9 +787,10 @@ def get_doseid(model: Model):
     ser = df.groupby([idcol, idvcol, '_RESETGROUP']).size()
     nonunique = ser[ser > 1]
 
-    for i, time, _ in nonunique.index:
-        groupind = df[(df[idcol] == i) & (df[idvcol] == time)].index
-        obsind = df[(df[idcol] == i) & (df[idvcol] == time) & (df[dose] == 0)].index
+    for i, time, resetgroup in nonunique.index:
+        ingroup = (df[idcol] == i) & (df[idvcol] == time) & (df['_RESETGROUP'] == resetgroup)
+        groupind = df[ingroup].index
+        obsind = df[ingroup & (df[dose] == 0)].index
         doseind = set(groupind) - set(obsind)
         if not doseind:
             continue
